@@ -91,7 +91,7 @@ impl Engine for CrashEngine {
   fn shrink(&self, case: &Self::Case) -> Vec<Self::Case> {
     crate::e1_crash::shrink_candidates(case)
   }
-  fn pin(&self, case: &Self::Case, wroot: &Path) -> Self::Case {
+  fn pin(&self, case: &Self::Case, _target: &Violation, wroot: &Path) -> Self::Case {
     // a violation found by the sweep becomes an op-relative pinned crash of
     // the last session (no sweep), which shrinks well
     let mut st = Stats::default();
@@ -173,7 +173,7 @@ impl Engine for FaultEngine {
   fn shrink(&self, case: &Self::Case) -> Vec<Self::Case> {
     crate::e1_fault::shrink_candidates(case)
   }
-  fn pin(&self, case: &Self::Case, wroot: &Path) -> Self::Case {
+  fn pin(&self, case: &Self::Case, _target: &Violation, wroot: &Path) -> Self::Case {
     let mut st = Stats::default();
     let r = crate::e1_fault::run_case(case, wroot, &mut st);
     let mut c = case.clone();
@@ -215,5 +215,62 @@ impl Engine for FaultEngine {
       "probe.second_fault_in_error_path",
       "probe.queue_checked_via_restart",
     ]
+  }
+}
+
+pub struct CorruptEngine;
+
+impl Engine for CorruptEngine {
+  type Case = crate::e1_corrupt::CorruptCase;
+  fn name(&self) -> &'static str {
+    "e1.corrupt"
+  }
+  fn level(&self) -> &'static str {
+    "fault_enumeration"
+  }
+  fn generate(&self, rng: &mut Rng, thorough: bool) -> Self::Case {
+    crate::e1_corrupt::gen_case(rng, thorough)
+  }
+  fn execute(&self, case: &Self::Case, wroot: &Path, stats: &mut Stats) -> (Vec<Violation>, Vec<String>) {
+    let r = crate::e1_corrupt::run_case(case, wroot, stats);
+    stats.add("steps", case.ops.len() as u64);
+    (r.violations, r.trace)
+  }
+  fn shrink(&self, case: &Self::Case) -> Vec<Self::Case> {
+    crate::e1_corrupt::shrink_candidates(case)
+  }
+  fn pin(&self, case: &Self::Case, target: &Violation, wroot: &Path) -> Self::Case {
+    let mut st = Stats::default();
+    let r = crate::e1_corrupt::run_case(case, wroot, &mut st);
+    let mut c = case.clone();
+    if let Some((_, m)) = r.pins.iter().find(|(v, _)| v.same_kind(target)) {
+      c.pin = Some(m.clone());
+    }
+    c
+  }
+  fn sample(&self, case: &Self::Case) -> Value {
+    crate::e1_corrupt::sample_json(case)
+  }
+  fn rule(&self) -> String {
+    "seeded small indexes (1-3 segments, deletions, non-empty log) built on SimFs and closed; media faults between sessions: single-byte xor (masks 01 02 10 80 FF) at every offset and every truncation length of every file (thorough) or a PRNG sample per file (quick); an evaluation is one mutated image reopened and searched (match_all + probe battery; for wal.log: recovery + commit); distinct = distinct index shapes, sites = file classes hit".into()
+  }
+  fn assumptions(&self) -> Vec<String> {
+    vec![
+      "one media fault at a time".into(),
+      "a changed byte that leaves every observable result equal (dead byte) is not a violation".into(),
+    ]
+  }
+  fn real_vs_stub(&self) -> Value {
+    e1_real_vs_stub()
+  }
+  fn budget(&self, thorough: bool) -> (u64, f64) {
+    if thorough {
+      (100_000, 900.0)
+    } else {
+      (100_000, 40.0)
+    }
+  }
+  fn probes(&self) -> Vec<&'static str> {
+    vec!["fault.bit_flip", "fault.truncate", "probe.corruption_detected", "probe.corruption_harmless", "probe.log_prefix_recovered"]
   }
 }
